@@ -30,6 +30,10 @@ type Opt struct {
 	// AfterPoll, when set, runs between a poll that returned rows and the
 	// reading of those rows (a caller that receives rows and looks at them later)
 	AfterPoll func()
+	// Warmup: before the execution that is reported, the plan is polled that
+	// many times with a context of its own (-1: to the end of the stream), the
+	// rows are thrown away and the plan is re-armed with Init()
+	Warmup int
 }
 
 // Outcome of one execution.
@@ -150,6 +154,34 @@ func Drain(plan kvql.FinalPlan, opt Opt, out *Outcome) {
 		out.Rows = append(out.Rows, ref.CanonRow(row))
 		if opt.KeepRaw {
 			out.Raw = append(out.Raw, row)
+		}
+	}
+	if opt.Warmup != 0 {
+		wctx := kvql.NewExecuteCtx()
+		wctx.EnableCache = ctx.EnableCache
+		for i := 0; opt.Warmup < 0 || i < opt.Warmup; i++ {
+			var done bool
+			var err error
+			if opt.Mode == Row {
+				var cols []kvql.Column
+				cols, err = plan.Next(wctx)
+				done = cols == nil
+			} else {
+				var rows [][]kvql.Column
+				rows, err = plan.Batch(wctx)
+				done = len(rows) == 0
+			}
+			if err != nil {
+				out.ExecErr = err
+				return
+			}
+			if done {
+				break
+			}
+		}
+		if err := plan.Init(); err != nil {
+			out.ExecErr = err
+			return
 		}
 	}
 	extra := opt.ExtraPoll
